@@ -27,13 +27,15 @@ CONSTANTS ItemKinds,    \* names of the items a program is built from
           ViolKinds,    \* names of the violation items (one may end a program)
           MaxItems,     \* bound on the number of items
           MinItems,     \* programs shorter than this are not evaluated (simulation)
+          MaxCmt,       \* bound on the characters of the generated block comment after its opener (0: no generated comment)
           Emit
 
 LocDevs == {"NewlineLocNextLine", "SetlocAfterLookahead", "DotDotRestore"}
 
 VARIABLES prog,   \* sequence of item names
-          viol    \* "" or the name of the violation item that ends the program
-vars == <<prog, viol>>
+          viol,   \* "" or the name of the violation item that ends the program
+          cmt     \* characters of the generated block comment after its opener, terminator included (<<>>: none)
+vars == <<prog, viol, cmt>>
 
 (* ====================================================================== *)
 (* Pieces, lines, items                                                      *)
@@ -62,6 +64,28 @@ SetLine(ls, n, file) == [lines |-> ls, set |-> [on |-> TRUE, n |-> n, hasfile |-
 SetLineOnly(ls, n) == [lines |-> ls, set |-> [on |-> TRUE, n |-> n, hasfile |-> FALSE, file |-> <<>>]]
 
 DeclLine == <<T(cINT), F(SP), T(cV), T(<<";">>)>>
+
+(* ---- generated block comments (C11 5.1.1.2 phases 2-3, 6.4.9p1) ----                                              *)
+(* The text after the opener is ANY sequence over CmtAlphabet (a star, a slash, an ordinary character, a new-line,   *)
+(* a backslash) in which, once every backslash-new-line pair is deleted (phase 2), the first star-slash pair is the  *)
+(* last two characters: the contents of a comment are examined only to find its terminator, so every other           *)
+(* character - runs of stars before a new-line, slashes, backslashes, splices between the star and the slash of the  *)
+(* terminator - is filler, and every new-line character in it, spliced or not, ends a physical line.                 *)
+CmtAlphabet == {"*", "/", "a", NL, BS}
+CmtKinds == {"gcmt_lead", "gcmt_mid"}
+RECURSIVE Unsplice(_), Segs(_)
+Unsplice(c) == IF c = <<>> THEN <<>>
+               ELSE IF Len(c) >= 2 /\ c[1] = BS /\ c[2] = NL THEN Unsplice(SubSeq(c, 3, Len(c)))
+               ELSE <<c[1]>> \o Unsplice(Tail(c))
+Closed(c) == LET r == Unsplice(c) IN Len(r) >= 2 /\ r[Len(r) - 1] = "*" /\ r[Len(r)] = "/"
+Segs(c) == LET q == {i \in 1..Len(c) : c[i] = NL} IN          \* the physical lines of c
+           IF q = {} THEN <<c>> ELSE LET i == SetMin(q) IN <<SubSeq(c, 1, i - 1)>> \o Segs(SubSeq(c, i + 1, Len(c)))
+(* pre: pieces before the opener on its line; post: pieces after the terminator on its line *)
+GCmt(pre, post) ==
+  LET segs == Segs(<<"/", "*">> \o cmt)
+      k == Len(segs) IN
+  Plain([j \in 1..k |-> L((IF j = 1 THEN pre ELSE <<>>) \o <<F(segs[j])>> \o (IF j = k THEN post ELSE <<>>),
+                           IF j = k THEN "tok" ELSE "none")])
 n1 == <<"1">>   n7 == <<"7">>   nBig == <<"2","1","4","7","4","8","3","6","4","7">>   n010 == <<"0","1","0">>
 LineDir(n)      == SetLineOnly(<<L(<<Tn(<<"#">>), Tn(cLINE), F(SP), Tn(n)>>, "dir")>>, n)
 LineDirF(n)     == SetLine(<<L(<<Tn(<<"#">>), Tn(cLINE), F(SP), Tn(n), F(SP), Tn(cFC)>>, "dir")>>, n, <<"f",".","c">>)
@@ -81,6 +105,8 @@ Item(name) ==
                                     L(<<F(<<"b"," ","*","/"," ">>), T(cV), T(<<";">>)>>, "tok")>>)
     [] name = "cmt3"     -> Plain(<<L(<<F(<<"/","*"," ","a">>)>>, "none"), L(<<F(<<"b">>)>>, "none"),
                                     L(<<F(<<"*","/"," ">>), T(cINT), F(SP), T(cV), T(<<";">>)>>, "tok")>>)
+    [] name = "gcmt_lead" -> GCmt(<<>>, <<F(SP), T(cINT), F(SP), T(cV), T(<<";">>)>>)       \* /*...*/ int v;
+    [] name = "gcmt_mid"  -> GCmt(<<T(cINT)>>, <<T(cV), T(<<";">>)>>)                       \* int/*...*/v;
     [] name = "lcmt"     -> Plain(<<L(DeclLine \o <<F(<<" ","/","/"," ","c">>)>>, "tok")>>)
     [] name = "lcmt_sp"  -> Plain(<<L(<<F(<<"/","/"," ","c"," ",BS>>)>>, "none"), L(<<F(<<"d"," ","*","/">>)>>, "tok")>>)
     [] name = "blank"    -> Plain(<<L(<<>>, "tok")>>)
@@ -272,10 +298,17 @@ Run(t, st) ==
 Machine(t) == Run(t, PP0)
 
 (* ====================================================================== *)
-Init == prog = <<>> /\ viol = ""
-AddItem(k) == /\ viol = "" /\ Len(prog) < MaxItems /\ prog' = Append(prog, k) /\ UNCHANGED viol
-AddViol(v) == /\ viol = "" /\ Len(prog) >= MinItems /\ viol' = v /\ UNCHANGED prog
-Next == (\E k \in ItemKinds : AddItem(k)) \/ (\E v \in ViolKinds : AddViol(v))
+(* the comment is written first, character by character, until it is closed; items follow, the first of them being   *)
+(* the one that carries the comment.  A program is evaluated when it has no generated comment, or has one and uses it. *)
+HasCmt == \E i \in 1..Len(prog) : prog[i] \in CmtKinds
+Evaluated == Len(prog) >= MinItems /\ (cmt = <<>> \/ HasCmt)
+Init == prog = <<>> /\ viol = "" /\ cmt = <<>>
+AddAtom(a) == /\ prog = <<>> /\ viol = "" /\ ~Closed(cmt) /\ Len(cmt) < MaxCmt /\ cmt' = Append(cmt, a) /\ UNCHANGED <<prog, viol>>
+AddItem(k) == /\ viol = "" /\ Len(prog) < MaxItems
+              /\ IF k \in CmtKinds THEN Closed(cmt) /\ prog = <<>> ELSE cmt = <<>> \/ HasCmt
+              /\ prog' = Append(prog, k) /\ UNCHANGED <<viol, cmt>>
+AddViol(v) == /\ viol = "" /\ Evaluated /\ viol' = v /\ UNCHANGED <<prog, cmt>>
+Next == (\E k \in ItemKinds : AddItem(k)) \/ (\E v \in ViolKinds : AddViol(v)) \/ (\E a \in CmtAlphabet : AddAtom(a))
 Spec == Init /\ [][Next]_vars
 
 (* ====================================================================== *)
@@ -296,7 +329,7 @@ Refines ==
   /\ \A i \in 1..n : Proj(m.raw[i]) = Proj(dec[i])
   /\ (m.err = 0 => n = Len(dec))
   /\ (m.err # 0 => m.err = ei)
-Inv_Refines == Len(prog) >= MinItems => Refines
+Inv_Refines == Evaluated => Refines
 
 (* ---- emission for flow A ---- *)
 LocRec(tk) == <<tk.k, Str(tk.s), Str(tk.file), tk.b, tk.d, tk.col>>
@@ -310,12 +343,12 @@ EmitCase ==
       ex == [j \in 1..Len(dd) |-> LocRec(dd[j])]
       mo == [j \in 1..Len(md) |-> LocRec(md[j])]
   IN PrintT("VCASE " \o ToJson(
-       [p |-> prog, v |-> viol, t |-> [i \in 1..Len(Text) |-> Code(Text[i])],
+       [p |-> prog, v |-> viol, c |-> [i \in 1..Len(cmt) |-> Code(cmt[i])], t |-> [i \in 1..Len(Text) |-> Code(Text[i])],
         e |-> ex,                                               \* expected (kind, spelling, file, b, d, col) of every delivered token
         m |-> IF mo = ex THEN <<>> ELSE mo,                      \* what the model of the code predicts, when different
         ee |-> IF ei = 0 THEN <<>> ELSE LocRec(dec[ei]),         \* token the diagnostic must name
         me |-> IF ei = 0 \/ ei > Len(m.raw) THEN <<>> ELSE LocRec(m.raw[ei]),
         f |-> SetToSeq(m.sc.fired \cup (IF ei # 0 /\ dec[ei].k = "TNEWLINE" /\ Dev("NewlineLocNextLine") THEN {"NewlineLocNextLine"} ELSE {})),
         x |-> SetToSeq(m.acts)]))
-Inv_Emit == (Emit /\ Len(prog) >= MinItems) => EmitCase
+Inv_Emit == (Emit /\ Evaluated) => EmitCase
 =============================================================================
